@@ -167,4 +167,34 @@ def eqZip {α : Type} (eq : α → α → Bool) : List α → List α → Bool
   | a :: as, b :: bs => eq a b && eqZip eq as bs
   | _, _ => true
 
+/-! ## step numbers, `Result` equality and the eq / hash contract
+
+A step number is an `int` at top level and a string such as `'2_0'` inside partitions.  Python's `==` between
+an `int` and a `str` is `False`.  `Result.__eq__` compares the step numbers, `Result.__hash__` hashes the key
+`('Result', step_num)`; the contract `a == b ⇒ hash(a) == hash(b)` holds because equal objects have the same key. -/
+inductive StepNum where
+  | int (i : Int)
+  | str (s : String)
+  deriving DecidableEq, Repr
+
+/-- `x == y` on step numbers -/
+def snEq (a b : StepNum) : Bool := decide (a = b)
+
+/-- `Result.__eq__` between two `Result`s -/
+def resultEqSN (a b : StepNum) : Bool := snEq a b
+
+/-- the tuple `Result.__hash__` hashes -/
+def resultHashKey (a : StepNum) : String × StepNum := ("Result", a)
+
+/-- `hash(Result(sn))` for an abstract tuple hash -/
+def resultHashSN (tupHash : String × StepNum → Int) (a : StepNum) : Int := tupHash (resultHashKey a)
+
+/-- `Result.ref_name`: `f'result_{step_num}'` -/
+def refName : StepNum → String
+  | .int i => "result_" ++ toString i
+  | .str s => "result_" ++ s
+
+/-- a seeded variant: `__eq__` compares `ref_name` while `__hash__` still hashes the raw step number -/
+def resultEqByRefName (a b : StepNum) : Bool := refName a == refName b
+
 end MindsVerif.PyEq
